@@ -84,6 +84,19 @@ MonWInBand(e)     == WAll(e, LAMBDA it, s : it.tc.dev # 0 =>
 MonWSpread(e)     == (e.called /\ Len(e.items) > 0) =>
   SeqMax(e.items, LAMBDA it : it.fd.ts - it.tc.adj) - SeqMin(e.items, LAMBDA it : it.fd.ts - it.tc.adj) <= e.vs.range
 MonWAccepted(e) == MonWCount(e) /\ MonWExpected(e) /\ MonWWellFormed(e) /\ MonWFresh(e) /\ MonWInBand(e) /\ MonWSpread(e)
+(* oracle time validation (time.rs): a price set accepted by validate_time against a target contains no
+   price older than the required lower bound, newer than the upper bound, or from an earlier slot; judged
+   on the feeds' own (adjusted) timestamps, not on the oracle's summary fields.
+   e.tgt = [after, before, slot]; e.vt = result of Oracle::validate_time(tgt) inside the wrapped operation
+   ("" = accepted, "-" = not evaluated); e.max_age / e.vma the same for the real MaxAgeValidator. *)
+ItTs(it) == it.fd.ts - it.tc.adj
+MonTAfter(e)  == (e.called /\ e.vt = "" /\ e.tgt.after.some)  => \A i \in DOMAIN e.items : ItTs(e.items[i]) >= e.tgt.after.v
+MonTBefore(e) == (e.called /\ e.vt = "" /\ e.tgt.before.some) => \A i \in DOMAIN e.items : ItTs(e.items[i]) <= e.tgt.before.v
+MonTSlot(e)   == (e.called /\ e.vt = "" /\ e.tgt.slot.some)   => \A i \in DOMAIN e.items : e.items[i].fd.slot >= e.tgt.slot.v
+MonTMaxAge(e) == (e.called /\ e.vma = "") => \A i \in DOMAIN e.items : ItTs(e.items[i]) + e.max_age >= e.vs.now
+ConformsTime(e) ==
+  e.called => (e.vt = ValidateTime(e.srs, e.tgt) /\ e.vma = ValidateTime(e.srs, MaxAgeTarget(e.vs.now, e.max_age)))
+
 (* the wrapped operation's result is passed through *)
 MonWResult(e) == e.called => (e.res = "ok") = e.f_ok
 ConformsWith(e) ==
@@ -93,6 +106,7 @@ ConformsWith(e) ==
      /\ e.called = (l.err = "")
      /\ ~e.called => (e.res = "err" /\ e.err = l.err)
      /\ e.called => (e.srs = l.rs /\ Len(e.seen) = l.n)
+     /\ ConformsTime(e)
      /\ e.called => \A i \in DOMAIN e.items :
           LET pr == ParseFeed(e.vs.now, e.items[i].tc, e.items[i].fd, e.allow_closed) IN
             e.seen[i].min = PMin(pr.t.p) /\ e.seen[i].max = PMax(pr.t.p)
